@@ -65,6 +65,32 @@ def _has_effects(n):
     return False
 
 
+def _pure_arg(a, depth=0):
+    """an argument expression without side effects: variables, literals, members, subscripts, arithmetic, and copy /
+    conversion constructions of such (a shared_ptr or scalar passed by value)"""
+    a = strip(a)
+    k = a.get("k")
+    if depth > 8:
+        return False
+    if k in ("Ref", "This") or k in SIMPLE_LIT or k == "Str":
+        return True
+    if k == "Member":
+        return a.get("b") is None or _pure_arg(a["b"], depth + 1)
+    if k in ("Construct", "TempObj", "InitList"):
+        return len(a.get("a", [])) <= 1 and all(_pure_arg(x, depth + 1) for x in a.get("a", []))
+    if k == "Index":
+        return _pure_arg(a["b"], depth + 1) and _pure_arg(a["idx"], depth + 1)
+    if k == "Bin":
+        return _pure_arg(a["lhs"], depth + 1) and _pure_arg(a["rhs"], depth + 1)
+    if k == "Un" and a.get("op") in ("-", "+", "!", "~", "*", "&"):
+        return _pure_arg(a["e"], depth + 1)
+    if k == "Cond":
+        return all(_pure_arg(a[x], depth + 1) for x in ("c", "then", "else"))
+    if k == "MCall" and a.get("cconst") and not a.get("a"):
+        return a.get("obj") is None or _pure_arg(a["obj"], depth + 1)      # const accessor without arguments
+    return False
+
+
 def _max_id(node):
     m = -1
     for x in walk(node):
@@ -421,7 +447,7 @@ class Inliner:
             if cal is None:
                 return None
             e = self.pure_expr(cal)
-            if e is None or any(_has_effects(a) for a in c.get("a", [])):
+            if e is None or not all(_pure_arg(a) for a in c.get("a", [])):
                 return None
             if any(x.get("k") in ("Assign", "Lambda", "New", "Delete", "Throw") or (x.get("k") == "Un" and x.get("op") in ("++", "--")) for x in walk(e)):
                 return None
@@ -462,15 +488,18 @@ class Inliner:
 NEG = {"<": ">=", ">": "<=", "<=": ">", ">=": "<", "==": "!=", "!=": "=="}
 
 
-def split_cond(c, truth=True):
-    """condition node -> list of alternatives, each a list of (atom, truth): DNF over && / || / !"""
-    c = strip(c)
+def split_cond(c, truth=True, view=None):
+    """condition node -> list of alternatives, each a list of (atom, truth): DNF over && / || / !;
+    with a view, named conditions (`const bool adaptive = (_mode != Fixed);`) are resolved to what they name"""
+    c = view.value(c) if view is not None else strip(c)
     k = c.get("k")
+    if k in ("Construct", "TempObj") and len(c.get("a", [])) == 1 and view is not None:
+        return split_cond(c["a"][0], truth, view)
     if k == "Un" and c.get("op") == "!":
-        return split_cond(c["e"], not truth)
+        return split_cond(c["e"], not truth, view)
     if k == "Bin" and c.get("op") in ("&&", "||"):
         conj = (c["op"] == "&&") == truth
-        L, R = split_cond(c["lhs"], truth), split_cond(c["rhs"], truth)
+        L, R = split_cond(c["lhs"], truth, view), split_cond(c["rhs"], truth, view)
         if conj:
             return [a + b for a in L for b in R]
         return L + R
@@ -490,7 +519,7 @@ def contexts(view, node):
             inthen = p.get("then") is not None and (p["then"] is child or child.get("i") == p["then"].get("i"))
             inelse = p.get("else") is not None and (p["else"] is child or child.get("i") == p["else"].get("i"))
             if inthen or inelse:
-                new = split_cond(p.get("c") or {}, inthen)
+                new = split_cond(p.get("c") or {}, inthen, view)
                 alts = [a + b for a in alts for b in new]
         elif k in ("Case", "Default"):
             sw = view.parent.get(p.get("i"))
@@ -580,3 +609,411 @@ def affine(view, n, depth=0):
     if k in ("Construct", "TempObj") and len(n.get("a", [])) == 1:
         return affine(view, n["a"][0], depth + 1)
     return None
+
+
+# -------------------------------------------------------------------------------------------------
+# pointer cursors as the index loops they are
+# -------------------------------------------------------------------------------------------------
+
+def _ptr_decompose(n):
+    """pointer expression -> (base pointer node, integer offset node or None): B, B + e, B + e - c, &B[e]"""
+    n = strip(n)
+    k = n.get("k")
+    if k == "Bin" and n.get("op") in ("+", "-"):
+        r = _ptr_decompose(n["lhs"])
+        if r is None:
+            return None
+        B, E = r
+        rhs = n["rhs"]
+        if E is None:
+            if n["op"] == "-":
+                return None
+            return B, rhs
+        return B, {"k": "Bin", "op": n["op"], "lhs": E, "rhs": rhs, "t": E.get("t"), "l": n.get("l")}
+    if k == "Un" and n.get("op") == "&":
+        e = strip(n["e"])
+        if e.get("k") == "Index":
+            return e["b"], e["idx"]
+        return None
+    if k in ("Ref", "MCall", "Member", "Cond"):
+        return n, None
+    return None
+
+
+def cursors_to_indices(fn):
+    """-> Function in which lock-step pointer cursors are rewritten as one index variable:
+
+        const IT* ci = col + rp[i];  const DT* av = val + rp[i];              IT K = rp[i];
+        for(; *ci < i; ++ci, ++av) d += *av * out[*ci];             ==>       for(; col[K] < i; ++K) d += val[K] * out[col[K]];
+        out[i] = (b[i] - d) / *av;                                            out[i] = (b[i] - d) / val[K];
+
+    A cursor is a pointer local initialised with `base + offset` (or `&base[offset]`) whose only writes are unit steps in
+    the increment (or as trailing statements of the body) of ONE loop; all cursors stepped by that loop must start at the
+    same offset expression and move in the same direction.  `*p`, `p[c]` become `base[K]`, `base[K + c]`; a comparison
+    `p != base + e` / `p < base + e` becomes `K != e` / `K < e`.  Any other use of a cursor leaves the function untouched.
+    Only the statement tree is rewritten (the analyses that use this form do not use the CFG)."""
+    if fn.body is None:
+        return fn
+    from mgfacts import FnView
+    view = FnView(fn)
+    body = None
+    groups = []        # (loop id, [cursor decl ids], step)
+    for loop in walk(fn.body):
+        if loop.get("k") not in ("For", "While"):
+            continue
+        steps = []
+
+        def comma(n):
+            n = strip(n)
+            if n.get("k") == "Bin" and n.get("op") == ",":
+                return comma(n["lhs"]) + comma(n["rhs"])
+            return [n]
+        if loop.get("k") == "For" and loop.get("inc") is not None:
+            steps = comma(loop["inc"])
+            where = "inc"
+        else:
+            b = loop.get("body") or {}
+            st = b.get("s", []) if b.get("k") == "Block" else [b]
+            def unit_step(x):
+                x = strip(x)
+                if x.get("k") == "Un" and x.get("op") in ("++", "--") and strip(x["e"]).get("k") == "Ref":
+                    return True
+                return x.get("k") == "Assign" and x.get("op") in ("+=", "-=") and strip(x["lhs"]).get("k") == "Ref" and strip(x["rhs"]).get("k") == "Int" and int(strip(x["rhs"])["v"]) == 1
+            while st and unit_step(st[-1]) and len(steps) < 4:
+                steps.insert(0, strip(st[-1]))
+                st = st[:-1]
+            where = "tail"
+        curs = []
+        ok = True
+        for s_ in steps:
+            d = sgn = None
+            if s_.get("k") == "Un" and s_.get("op") in ("++", "--") and strip(s_["e"]).get("k") == "Ref":
+                d, sgn = strip(s_["e"])["d"], (1 if s_["op"] == "++" else -1)
+            elif s_.get("k") == "Assign" and s_.get("op") in ("+=", "-=") and strip(s_["lhs"]).get("k") == "Ref" and strip(s_["rhs"]).get("k") == "Int" and int(strip(s_["rhs"])["v"]) == 1:
+                d, sgn = strip(s_["lhs"])["d"], (1 if s_["op"] == "+=" else -1)
+            var = view.locals.get(d) if d is not None else None
+            if var is None or "*" not in fn.type(var.get("t")) or var.get("init") is None:
+                if where == "inc":
+                    ok = False
+                continue
+            if len(view.writes.get(d, [])) != 1:
+                ok = False
+                continue
+            curs.append((d, sgn, s_))
+        if where == "tail":
+            curs = [c for c in curs]       # non-pointer trailing steps (an index) are simply not cursors
+            if len(curs) != len([s_ for s_ in steps]):
+                # mixed tail (e.g. `++k;` of an index loop): only all-pointer tails are rewritten
+                if curs:
+                    ok = False
+        if ok and curs and len({c[1] for c in curs}) == 1:
+            groups.append((loop, curs, where))
+    if not groups:
+        return fn
+    import copy as _copy
+    d2 = dict(fn.d)
+    body = _copy.deepcopy(fn.body)
+    byid = {}
+    parent = {}
+    for x in walk(body):
+        if "i" in x:
+            byid[x["i"]] = x
+        for c in kids(x):
+            if "i" in c:
+                parent[c["i"]] = x
+    nid = [_max_id(body) + 1]
+
+    def new_id():
+        nid[0] += 1
+        return nid[0] - 1
+    done = 0
+    for loop0, curs, where in groups:
+        loop = byid.get(loop0.get("i"))
+        if loop is None:
+            continue
+        decomp = {}
+        for d, sgn, s_ in curs:
+            r = _ptr_decompose(view.locals[d]["init"])
+            if r is None:
+                decomp = None
+                break
+            decomp[d] = r
+        if not decomp:
+            continue
+        offs = {render(E) if E is not None else "0" for B, E in decomp.values()}
+        if len(offs) != 1:
+            continue
+        d0 = curs[0][0]
+        E0 = decomp[d0][1] or {"k": "Int", "v": "0", "i": new_id()}
+        K = next(_fresh_decl)
+        ktype = E0.get("t")
+        kname = "k_" + view.locals[d0]["n"]
+
+        def kref():
+            return {"k": "Ref", "i": new_id(), "t": ktype, "n": kname, "d": K, "dk": "local"}
+        cds = set(decomp)
+        # every use of a cursor must be one of the rewritable forms
+        uses = [x for x in walk(body) if x.get("k") == "Ref" and x.get("d") in cds]
+        plan = []
+        bad = False
+        endptrs = set()
+        step_ids = {s_["i"] for d, sgn, s_ in curs}
+        for u in uses:
+            p = parent.get(u.get("i"))
+            while p is not None and p.get("k") == "Cast":
+                u, p = p, parent.get(p.get("i"))
+            if p is None:
+                bad = True
+                break
+            B = decomp[strip(u)["d"]][0]
+            if p.get("i") in step_ids:
+                continue
+            if p.get("k") == "Un" and p.get("op") == "*":
+                plan.append((p, {"k": "Index", "i": p.get("i"), "l": p.get("l"), "t": p.get("t"), "b": _copy.deepcopy(B), "idx": kref()}))
+            elif p.get("k") == "Index" and strip(p["b"]) is strip(u):
+                plan.append((p, {"k": "Index", "i": p.get("i"), "l": p.get("l"), "t": p.get("t"), "b": _copy.deepcopy(B),
+                                 "idx": {"k": "Bin", "i": new_id(), "op": "+", "lhs": kref(), "rhs": p["idx"], "t": ktype}}))
+            elif p.get("k") == "Bin" and p.get("op") in ("<", ">", "<=", ">=", "!=", "=="):
+                other = p["rhs"] if strip(p["lhs"]) is strip(u) else p["lhs"]
+                ov = strip(other)
+                if ov.get("k") == "Ref" and ov.get("dk") == "local" and view.is_const_local(ov["d"]):
+                    ov = strip(view.locals[ov["d"]]["init"])
+                r = _ptr_decompose(ov)
+                if r is None or render(r[0]) != render(B):
+                    bad = True
+                    break
+                if strip(other).get("k") == "Ref" and strip(other).get("dk") == "local":
+                    endptrs.add(strip(other)["d"])
+                E1 = r[1] or {"k": "Int", "v": "0", "i": new_id()}
+                newc = dict(p)
+                if strip(p["lhs"]) is strip(u):
+                    newc["lhs"], newc["rhs"] = kref(), _copy.deepcopy(E1)
+                else:
+                    newc["lhs"], newc["rhs"] = _copy.deepcopy(E1), kref()
+                plan.append((p, newc))
+            else:
+                bad = True
+                break
+        if bad:
+            continue
+        # apply: replace nodes in place (dict identity is kept, contents swapped)
+        for old, new in plan:
+            old.clear()
+            old.update(new)
+        # steps: first becomes ++K / --K, the others vanish
+        first = True
+        for d, sgn, s_ in curs:
+            node = byid.get(s_["i"])
+            if first:
+                node.clear()
+                node.update({"k": "Un", "i": s_["i"], "l": s_.get("l"), "t": ktype, "op": "++" if sgn > 0 else "--", "e": kref()})
+                first = False
+            else:
+                node.clear()
+                node.update({"k": "Int", "i": s_["i"], "v": "0", "l": s_.get("l")})
+        if where == "inc":
+            # comma of (++K, 0, ...) -> ++K
+            def first_un(n):
+                n = strip(n)
+                if n.get("k") == "Bin" and n.get("op") == ",":
+                    return first_un(n["lhs"]) or first_un(n["rhs"])
+                return n if n.get("k") == "Un" else None
+            loop["inc"] = first_un(loop["inc"])
+        else:
+            b = loop.get("body")
+            if b.get("k") == "Block":
+                b["s"] = [x for x in b["s"] if not (strip(x).get("k") == "Int")]
+        # declarations: the first cursor's declaration becomes `K = E0`, the others vanish
+
+        def fix_decls(n):
+            for key in ("s",):
+                lst = n.get(key)
+                if isinstance(lst, list):
+                    out = []
+                    for st in lst:
+                        if st.get("k") == "Decl":
+                            vs = []
+                            for v in st.get("vars", []):
+                                if v.get("d") == d0:
+                                    vs.append({"k": "Var", "n": kname, "d": K, "t": ktype, "l": v.get("l"), "init": _copy.deepcopy(E0)})
+                                elif v.get("d") in cds:
+                                    continue
+                                else:
+                                    vs.append(v)
+                            if not vs:
+                                continue
+                            st["vars"] = vs
+                        out.append(st)
+                    n[key] = out
+            if n.get("k") == "For" and isinstance(n.get("init"), dict) and n["init"].get("k") == "Decl":
+                vs = []
+                for v in n["init"].get("vars", []):
+                    if v.get("d") == d0:
+                        vs.append({"k": "Var", "n": kname, "d": K, "t": ktype, "l": v.get("l"), "init": _copy.deepcopy(E0)})
+                    elif v.get("d") not in cds:
+                        vs.append(v)
+                n["init"]["vars"] = vs
+                if not vs:
+                    n["init"] = None
+            for c in kids(n):
+                fix_decls(c)
+        fix_decls(body)
+        # end pointers that only served the rewritten comparisons
+        live = {x.get("d") for x in walk(body) if x.get("k") == "Ref"}
+        cds = {d for d in endptrs if d not in live}
+        d0 = None
+        if cds:
+            fix_decls(body)
+        done += 1
+    if not done:
+        return fn
+    # deep-copied sub-expressions share node ids: renumber duplicates
+    seen = set()
+    for x in walk(body):
+        if "i" in x:
+            if x["i"] in seen:
+                x["i"] = new_id()
+            seen.add(x["i"])
+    d2["body"] = body
+    d2["cursors_normalised"] = done
+    return Function(fn.facts, d2)
+
+
+# -------------------------------------------------------------------------------------------------
+# a guard in front of a call that repeats the callee's own early-out
+# -------------------------------------------------------------------------------------------------
+
+def _subject(n, view=None):
+    """text of the object a presence / range test is about: smart-pointer wrappers (`.get()`, operator bool, *p) removed,
+    named constants resolved"""
+    n = view.value(n) if view is not None else strip(n)
+    while True:
+        if view is not None:
+            n = view.value(n)
+        if n.get("k") == "MCall" and n.get("n") in ("get", "operator bool") and n.get("obj") is not None and not n.get("a"):
+            n = strip(n["obj"])
+        elif n.get("k") in ("Construct", "TempObj") and len(n.get("a", [])) == 1:
+            n = strip(n["a"][0])
+        else:
+            break
+    return render(n)
+
+
+def guard_nf(view, c, truth=True):
+    """normal form of a simple guard: ('null', subject, is_null) | ('range', subject, lo, hi) with integer bounds (None =
+    unbounded); None for anything else.  view may be None (no resolution of named constants)."""
+    c = view.value(c) if view is not None else strip(c)
+    k = c.get("k")
+    if k == "Un" and c.get("op") == "!":
+        return guard_nf(view, c["e"], not truth)
+    if k in ("Construct", "TempObj") and len(c.get("a", [])) == 1:
+        return guard_nf(view, c["a"][0], truth)
+    if k == "MCall" and c.get("n") == "operator bool":
+        return ("null", _subject(c, view), not truth)
+    if (k == "Bin" or (k == "OpCall" and len(c.get("a", [])) == 2)) and c.get("op") in ("==", "!="):
+        l_, r_ = (c["lhs"], c["rhs"]) if k == "Bin" else (c["a"][0], c["a"][1])
+        for x, y in ((l_, r_), (r_, l_)):
+            yv = strip(y)
+            while yv.get("k") in ("Construct", "TempObj") and len(yv.get("a", [])) == 1:
+                yv = strip(yv["a"][0])
+            if yv.get("k") == "Null":
+                return ("null", _subject(x, view), (c["op"] == "==") == truth)
+    if k == "Bin" and c.get("op") in ("<", "<=", ">", ">="):
+        for x, y, op in ((c["lhs"], c["rhs"], c["op"]), (c["rhs"], c["lhs"], {"<": ">", ">": "<", "<=": ">=", ">=": "<="}[c["op"]])):
+            yv = view.value(y) if view is not None else strip(y)
+            if yv.get("k") == "Int":
+                v = int(yv["v"])
+                if not truth:
+                    op = NEG[op]
+                lo, hi = {"<": (None, v - 1), "<=": (None, v), ">": (v + 1, None), ">=": (v, None)}[op]
+                return ("range", _subject(x, view), lo, hi)
+    if k in ("Ref", "Member", "MCall") and truth is not None:
+        # a pointer / smart pointer used as a condition
+        return ("null", _subject(c, view), not truth) if k != "MCall" or c.get("n") in ("get",) else None
+    return None
+
+
+def nf_negate(nf):
+    if nf is None:
+        return None
+    if nf[0] == "null":
+        return ("null", nf[1], not nf[2])
+    lo, hi = nf[2], nf[3]
+    if lo is None and hi is not None:
+        return ("range", nf[1], hi + 1, None)
+    if hi is None and lo is not None:
+        return ("range", nf[1], None, lo - 1)
+    return None
+
+
+def callee_early_outs(callee):
+    """[(condition node, ...)] of the leading `if(C) return;` statements of a function (after leading declarations are NOT
+    skipped: the early-out must come first)"""
+    out = []
+    for st in callee.body.get("s", []):
+        if st.get("k") == "If" and st.get("else") is None:
+            t = st.get("then") or {}
+            ts = t.get("s", []) if t.get("k") == "Block" else [t]
+            if len(ts) == 1 and ts[0].get("k") == "Return" and (ts[0].get("e") is None or not _has_effects(ts[0]["e"])):
+                out.append(st["c"])
+                continue
+        break
+    return out
+
+
+def callee_guarded_ifs(view, bydecl):
+    """ids of `if(G) callee(args);` statements (no else, nothing else in the branch) whose guard G is the negation of one of
+    the callee's own leading early-outs `if(C) return;` (with the arguments substituted): skipping the call there is the
+    same as making it.  -> {if node id: call node}"""
+    out = {}
+    for n in walk(view.fn.body):
+        if n.get("k") != "If" or n.get("else") is not None:
+            continue
+        t = n.get("then") or {}
+        ts = t.get("s", []) if t.get("k") == "Block" else [t]
+        if len(ts) != 1:
+            continue
+        call = strip(ts[0])
+        if call.get("k") == "Assign" and call.get("op") == "=":
+            call = strip(call["rhs"])
+        if call.get("k") not in ("MCall", "Call"):
+            continue
+        cal = bydecl.get(call.get("cdecl"))
+        if cal is None or cal.body is None or len(call.get("a", [])) != len(cal.params):
+            continue
+        g = guard_nf(view, n.get("c") or {})
+        if g is None:
+            continue
+        sub = {p["d"]: a for p, a in zip(cal.params, call.get("a", []))}
+
+        def bind(x):
+            if isinstance(x, list):
+                return [bind(y) for y in x]
+            if not isinstance(x, dict):
+                return x
+            if x.get("k") == "Ref" and x.get("d") in sub:
+                return view.value(sub[x["d"]])
+            return {k2: bind(v2) for k2, v2 in x.items()}
+        for c in callee_early_outs(cal):
+            e = guard_nf(None, bind(c))
+            if e is not None and nf_negate(e) == g:
+                out[n["i"]] = call
+                break
+    return out
+
+
+def without_skip_edges(fn, view, if_ids):
+    """Function whose CFG lacks the edge that skips the then-branch of the given if statements"""
+    if not if_ids:
+        return fn
+    cfg = copy.deepcopy(fn.d["cfg"])
+    hit = 0
+    for b in cfg["blocks"]:
+        if b.get("term") == "IfStmt" and b.get("term_id") in if_ids and len(b.get("succ", [])) == 2:
+            b["succ"] = [b["succ"][0], None]
+            hit += 1
+    if not hit:
+        return fn
+    d2 = dict(fn.d)
+    d2["cfg"] = cfg
+    return Function(fn.facts, d2)
